@@ -197,6 +197,11 @@ func (e *Environment) Set(name string, val object.Object) object.Object {
 	return val
 }
 
+// Delete removes the global variable with the given name, if there is one.
+func (e *Environment) Delete(name string) {
+	delete(e.global, name)
+}
+
 // AddScope sets up storage for a new scope, which can store an arbitrary
 // number of local variables, these will be mass-discarded in the future
 // via `RemoveScope`.
